@@ -16,13 +16,22 @@ TRUSTED = []
 
 TNS = wsdlkit.TNS
 # "k" has no <soap:operation> child: empty SOAPAction, the binding's style
-BINDINGS = {"B1": ("document", ["f", "g", "k"]), "B2": ("rpc", ["g", "h"]), "BH": (None, ["f"])}
+# "B3" is a SOAP 1.2 binding (wsdl/soap12 namespace) whose operation "h" overrides the binding's style
+BINDINGS = {"B1": ("document", ["f", "g", "k"]), "B2": ("rpc", ["g", "h"]), "BH": (None, ["f"]),
+            "B3": ("document", ["f", "h", "k"])}
+SOAP12 = {"B3"}
+OPSTYLE = {("B3", "h"): "rpc"}
+
+
+def op_style(b, m):
+    return OPSTYLE.get((b, m), BINDINGS[b][0])
 
 
 def make_wsdl(services):
     """services: [(name, [(portname, bindingkey)])]"""
     w = ['<?xml version="1.0"?><wsdl:definitions targetNamespace="%s" xmlns:wsdl="http://schemas.xmlsoap.org/wsdl/" '
          'xmlns:w="%s" xmlns:x="%s" xmlns:soap="http://schemas.xmlsoap.org/wsdl/soap/" '
+         'xmlns:soap12="http://schemas.xmlsoap.org/wsdl/soap12/" '
          'xmlns:http="http://schemas.xmlsoap.org/wsdl/http/" xmlns:xsd="http://www.w3.org/2001/XMLSchema">'
          % (wsdlkit.WNS, wsdlkit.WNS, TNS)]
     w.append('<wsdl:types><xsd:schema targetNamespace="%s" elementFormDefault="qualified">' % TNS)
@@ -37,20 +46,21 @@ def make_wsdl(services):
         w.append('<wsdl:portType name="PT%s">' % b)
         for m in ops:
             w.append('<wsdl:operation name="%s"><wsdl:input message="w:%s%s"/></wsdl:operation>'
-                     % (m, m, "Rpc" if style == "rpc" else "Doc"))
+                     % (m, m, "Rpc" if op_style(b, m) == "rpc" else "Doc"))
         w.append('</wsdl:portType>')
         w.append('<wsdl:binding name="%s" type="w:PT%s">' % (b, b))
+        sp = "soap12" if b in SOAP12 else "soap"
         if style is None:
             w.append('<http:binding verb="GET"/>')
         else:
-            w.append('<soap:binding style="%s" transport="http://schemas.xmlsoap.org/soap/http"/>' % style)
+            w.append('<%s:binding style="%s" transport="http://schemas.xmlsoap.org/soap/http"/>' % (sp, style))
         for m in ops:
             w.append('<wsdl:operation name="%s">' % m)
             if style is not None:
                 if m != "k":
-                    w.append('<soap:operation soapAction="urn:act:%s:%s" style="%s"/>' % (b, m, style))
-                ns = ' namespace="urn:rpcns"' if style == "rpc" else ""
-                w.append('<wsdl:input><soap:body use="literal"%s/></wsdl:input>' % ns)
+                    w.append('<%s:operation soapAction="urn:act:%s:%s" style="%s"/>' % (sp, b, m, op_style(b, m)))
+                ns = ' namespace="urn:rpcns"' if op_style(b, m) == "rpc" else ""
+                w.append('<wsdl:input><%s:body use="literal"%s/></wsdl:input>' % (sp, ns))
             else:
                 w.append('<http:operation location="/%s"/><wsdl:input/>' % m)
             w.append('</wsdl:operation>')
@@ -61,7 +71,7 @@ def make_wsdl(services):
             if BINDINGS[b][0] is None:
                 addr = '<http:address location="http://h.invalid/%s/%s"/>' % (sname, pname)
             else:
-                addr = '<soap:address location="http://h.invalid/%s/%s"/>' % (sname, pname)
+                addr = '<%s:address location="http://h.invalid/%s/%s"/>' % ("soap12" if b in SOAP12 else "soap", sname, pname)
             w.append('<wsdl:port name="%s" binding="w:%s">%s</wsdl:port>' % (pname, b, addr))
         w.append('</wsdl:service>')
     w.append('</wsdl:definitions>')
@@ -130,7 +140,7 @@ def expected_from_model(services, ans, location=None):
         return {"sel": {"svc": "ServiceSelector", "port": "PortSelector", "meth": "MethodSelector"}[ans["sel"][0]]}
     s, p, m = ans["method"]
     pn, b = soap_ports(services, s)[p]
-    style = BINDINGS[b][0]
+    style = op_style(b, m)
     url = location or "http://h.invalid/%s/%s" % (services[s][0], pn)
     wrapper = ["urn:rpcns", m] if style == "rpc" else [TNS, m]
     action = '""' if m == "k" else '"urn:act:%s:%s"' % (b, m)
@@ -143,14 +153,15 @@ def shapes(ctx):
            [("S1", [("P1", "BH"), ("P2", "B2")])], [("S1", [("P1", "B1"), ("P2", "B2")])],
            [("S1", [("P1", "B1")]), ("S2", [("P1", "B2")])],
            [("S1", [("P1", "B1"), ("P2", "BH"), ("P3", "B2")]), ("S2", []), ("S3", [("Q", "B2"), ("P1", "B1")])],
-           [("S1", [("P1", "BH")]), ("S2", [("P2", "B1"), ("P1", "B2")])]]
+           [("S1", [("P1", "BH")]), ("S2", [("P2", "B1"), ("P1", "B2")])],
+           [("S1", [("P1", "B3")])], [("S1", [("P1", "B1"), ("P2", "B3")]), ("S2", [("P1", "B3"), ("P2", "B2")])]]
     for _ in range(ctx.pick(25, 400)):
         n = rng.randint(0, 3)
         svcs = []
         for i in range(n):
             k = rng.randint(0, 3)
             names = rng.sample(["P1", "P2", "P3", "Q"], k)
-            svcs.append(("S%d" % (i + 1), [(pn, rng.choice(["B1", "B2", "BH"])) for pn in names]))
+            svcs.append(("S%d" % (i + 1), [(pn, rng.choice(["B1", "B2", "BH", "B3"])) for pn in names]))
         out.append(svcs)
     return out
 
@@ -181,30 +192,44 @@ def run(ctx):
         w = make_wsdl(services)
         msvcs = model_services(services)
         all_exprs = expressions(rng, 300)
+        live = live_tr = None
         for _ in range(ctx.pick(8, 16)):
             so, po = rng.choice(opt_vals_s), rng.choice(opt_vals_p)
             if rng.random() < 0.35:
                 so, po = None, None
-            tr = wsdlkit.RecordingTransport(reply=None)
             kw = {}
             if so is not None:
                 kw["service"] = so
             if po is not None:
                 kw["port"] = po
-            try:
-                c = wsdlkit.client(w, transport=tr, **kw)
-            except Exception as e:
-                ctx.fail("client construction failed", {"services": services, "opts": kw}, repr(e), "a client")
-                continue
+            if live is not None and rng.random() < 0.5:
+                # the same client, already used, with its options changed: the new settings decide
+                c, tr = live, live_tr
+                prior = live_opts
+                c.set_options(service=so, port=po)
+                ctx.dist["client=reused-with-changed-options"] += 1
+            else:
+                tr = wsdlkit.RecordingTransport(reply=None)
+                try:
+                    c = wsdlkit.client(w, transport=tr, **kw)
+                except Exception as e:
+                    ctx.fail("client construction failed", {"services": services, "opts": kw}, repr(e), "a client")
+                    continue
+                live, live_tr = c, tr
+                prior = None
+                ctx.dist["client=fresh"] += 1
+            live_opts = [so, po]
             for steps in rng.sample(all_exprs, min(len(all_exprs), per_shape // 5)):
                 real = real_eval(c, tr, steps)
                 reqs.append({"op": "select.eval", "services": msvcs, "opts": {"service": so, "port": po},
                              "steps": steps})
                 reals.append(real)
-                metas.append((services, so, po, steps))
+                metas.append((services, so, po, steps, prior))
     answers = ctx.driver.ask(reqs)
-    for (services, so, po, steps), real, ans in zip(metas, reals, answers):
+    for (services, so, po, steps, prior), real, ans in zip(metas, reals, answers):
         inp = {"services": services, "service_opt": so, "port_opt": po, "steps": steps}
+        if prior is not None:
+            inp["client_used_before_with_opts"] = prior
         nontrivial = len(services) > 1 or so is not None or po is not None or "err" in real or \
             any(len(p) > 1 for _n, p in services)
         ctx.case(common.digest(inp), nontrivial)
@@ -274,7 +299,15 @@ def replay(ctx, payload):
     if inp.get("port_opt") is not None:
         kw["port"] = inp["port_opt"]
     tr = wsdlkit.RecordingTransport()
-    c = wsdlkit.client(make_wsdl(services), transport=tr, **kw)
+    prior = inp.get("client_used_before_with_opts")
+    if prior is not None:
+        kw0 = {k: v for k, v in (("service", prior[0]), ("port", prior[1])) if v is not None}
+        c = wsdlkit.client(make_wsdl(services), transport=tr, **kw0)
+        for warm in ([{"attr": "f"}], [{"item": 0}], inp["steps"]):
+            real_eval(c, tr, warm)
+        c.set_options(service=inp.get("service_opt"), port=inp.get("port_opt"))
+    else:
+        c = wsdlkit.client(make_wsdl(services), transport=tr, **kw)
     real = real_eval(c, tr, inp["steps"])
     ans = ctx.driver.ask([{"op": "select.eval", "services": model_services(services),
                            "opts": {"service": inp.get("service_opt"), "port": inp.get("port_opt")},
